@@ -12,8 +12,8 @@ import (
 // modTarget: one modifies entry resolved against a state.
 type modTarget struct {
 	comp  string
-	ix    Term   // exact cell index (when !all)
-	under Term   // all cells whose index is idx(under, *) (slice elements) — when elems
+	ix    Term // exact cell index (when !all)
+	under Term // all cells whose index is idx(under, *) (slice elements) — when elems
 	elems bool
 	field int // for boxed struct element fields
 	// valuesOf: every map that is (at the time the target is resolved) a VALUE of the outer map `under`:
@@ -210,7 +210,11 @@ func (fr *Frame) applyContract(cx *callCtx, con *Contract) []Term {
 		vc.assumes["representation invariant of an encapsulated type assumed at call sites: "+c.Src] = true
 	}
 	// havoc what the callee may modify
-	if con.ModAll {
+	if con.CallerNothing {
+		// `callerframe nothing`: the body is verified against the declared (weaker) frame, callers ASSUME that
+		// nothing that existed before the call changes (a trusted frame next to verified postconditions)
+		vc.assumes[fmt.Sprintf("trusted frame for callers of %s: the call modifies nothing that existed before (its body is verified against `modifies *`)", con.Key)] = true
+	} else if con.ModAll {
 		var exc []modTarget
 		if len(con.Except) > 0 {
 			exc = env.resolveModifies(con.Except)
